@@ -1524,6 +1524,42 @@ func (w *World) charDataMerged(P string, pull *ssa.Function) {
 			})
 		}
 		w.check(P, "R09.9", "the token read ahead is delivered first", f.ta.Pos(), readers > 0 && okOrder, orElse(detail, fmt.Sprintf("functions reading the kept token back: %d; each asks the decoder only when nothing is waiting: %v", readers, okOrder)))
+		// (d) every character-data token that is handed on went through the merge: no return of the adapter's token
+		// functions, reached with the token known to be xml.CharData, returns the token as the decoder delivered it
+		var raw []string
+		for _, g := range scope {
+			if g == f.fn {
+				continue
+			}
+			allInstrs(g, func(in ssa.Instruction) {
+				ret, ok := in.(*ssa.Return)
+				if !ok || len(ret.Results) < 2 || !isNilConst(ret.Results[len(ret.Results)-1]) {
+					return
+				}
+				for _, a := range guardAtoms(ret.Block()) {
+					ex, ok := a.V.(*ssa.Extract)
+					if !ok || !a.Pol || ex.Index != 1 {
+						continue
+					}
+					ta, ok := ex.Tuple.(*ssa.TypeAssert)
+					if !ok || ta.AssertedType.String() != "encoding/xml.CharData" {
+						continue
+					}
+					// what is returned: the asserted token itself (or the interface it was asserted from)?
+					for _, rv := range ret.Results[:len(ret.Results)-1] {
+						v := stripConv(rv)
+						if ex0, isEx := v.(*ssa.Extract); isEx && ex0.Tuple == ssa.Value(ta) && ex0.Index == 0 {
+							raw = append(raw, w.pos(ret.Pos())+" in "+g.Name())
+						}
+						if v == ta.X {
+							raw = append(raw, w.pos(ret.Pos())+" in "+g.Name())
+						}
+					}
+				}
+			})
+		}
+		sort.Strings(raw)
+		w.check(P, "R09.9", "no character-data token bypasses the merge", f.ta.Pos(), len(raw) == 0, fmt.Sprintf("returns that hand on an xml.CharData token as the decoder delivered it: %s (text next to it - a CDATA section after indentation - then becomes a second text node)", orElse(strings.Join(raw, "; "), "none")))
 	}
 	w.floor(P, "R09.9", 1)
 }
